@@ -16,15 +16,15 @@ use crate::{
     xs,
 };
 
-struct K {
-    name: &'static str,
-    pem: &'static str,
-    key: &'static str,
-    names: &'static [&'static str],
-    exp: Option<i64>,
+pub(super) struct K {
+    pub(super) name: &'static str,
+    pub(super) pem: &'static str,
+    pub(super) key: &'static str,
+    pub(super) names: &'static [&'static str],
+    pub(super) exp: Option<i64>,
 }
 
-const CERTS: [K; 5] = [
+pub(super) const CERTS: [K; 5] = [
     K { name: "K1{a.io,exp2000}", pem: CERT1, key: KEY1, names: &["a.io"], exp: Some(2000) },
     K { name: "K2{a.io,exp3000}", pem: CERT2, key: KEY2, names: &["a.io"], exp: Some(3000) },
     K { name: "K3{*.a.io,exp2500}", pem: CERT3, key: KEY3, names: &["*.a.io"], exp: Some(2500) },
@@ -34,7 +34,7 @@ const CERTS: [K; 5] = [
 /// names K5 resolves to on its own (SAN present => SAN only)
 const K5_NAMES: [&str; 1] = ["tenant-a.example"];
 
-const PROBES: [&str; 8] = [
+pub(super) const PROBES: [&str; 8] = [
     "a.io",
     "b.a.io",
     "c.a.io",
@@ -46,7 +46,7 @@ const PROBES: [&str; 8] = [
 ];
 
 #[derive(Clone, Copy, Debug, PartialEq, Eq, serde::Serialize, serde::Deserialize)]
-enum Op {
+pub(super) enum Op {
     Add(u8),
     Remove(u8),
     /// replace(old = cert index, new = cert index)
@@ -55,7 +55,7 @@ enum Op {
     ReplaceBad(u8),
 }
 
-fn alphabet() -> Vec<Op> {
+pub(super) fn alphabet() -> Vec<Op> {
     let mut v = vec![];
     for i in 0..5 {
         v.push(Op::Add(i));
@@ -89,7 +89,7 @@ fn real_expiry(i: u8) -> i64 {
     CERTS[i as usize].exp.unwrap_or(i64::MAX / 2)
 }
 
-fn names_of(i: u8) -> Vec<&'static str> {
+pub(super) fn names_of(i: u8) -> Vec<&'static str> {
     if CERTS[i as usize].names.is_empty() {
         K5_NAMES.to_vec()
     } else {
@@ -98,7 +98,7 @@ fn names_of(i: u8) -> Vec<&'static str> {
 }
 
 /// reference: the set of loaded certificate indices after a history
-fn spec_apply(live: &mut Vec<u8>, op: Op) {
+pub(super) fn spec_apply(live: &mut Vec<u8>, op: Op) {
     match op {
         Op::Add(i) => {
             if !live.contains(&i) {
@@ -120,7 +120,7 @@ fn spec_apply(live: &mut Vec<u8>, op: Op) {
 }
 
 /// acceptable certificate indices for a probe (empty = default certificate)
-fn spec_lookup(live: &[u8], probe: &str) -> Vec<u8> {
+pub(super) fn spec_lookup(live: &[u8], probe: &str) -> Vec<u8> {
     let exact: Vec<u8> = live.iter().copied().filter(|&i| names_of(i).contains(&probe)).collect();
     let cands = if !exact.is_empty() {
         exact
@@ -336,7 +336,7 @@ fn check(ctx: &Ctx, h: &[Op]) -> xs::Key {
     xs::key_of(&buf)
 }
 
-fn op_name(o: Op) -> String {
+pub(super) fn op_name(o: Op) -> String {
     match o {
         Op::Add(i) => format!("add({})", CERTS[i as usize].name),
         Op::Remove(i) => format!("remove({})", CERTS[i as usize].name),
@@ -346,6 +346,17 @@ fn op_name(o: Op) -> String {
 }
 
 pub fn run(ctx: &Ctx) -> Coverage {
+    if std::env::var("VERIF_SHARD").is_ok() {
+        super::c17b::run(ctx);
+        unreachable!();
+    }
+    let mut cov = Coverage::aggregate();
+    cov.absorb("a-resolver", run_a(ctx));
+    cov.absorb("b-handshakes", super::c17b::run(ctx));
+    cov
+}
+
+fn run_a(ctx: &Ctx) -> Coverage {
     let alpha = alphabet();
     let depth = ctx.tier().pick(5, 7);
     let ex = xs::bfs(
@@ -398,6 +409,9 @@ pub fn run(ctx: &Ctx) -> Coverage {
 }
 
 pub fn replay(ctx: &Ctx, case: &Value) -> Coverage {
+    if case["part"] == "b" {
+        return super::c17b::replay_case(ctx, case);
+    }
     let h: Vec<Op> = serde_json::from_value(case["history"].clone())
         .unwrap_or_else(|e| machinery_error(&format!("bad replay history: {e}")));
     check(ctx, &h);
